@@ -2,6 +2,7 @@ package configmigrate
 
 import (
 	"fmt"
+	"math"
 )
 
 type (
@@ -31,6 +32,17 @@ func fieldVal[T any](obj yobj, key string) (v T, ok bool, err error) {
 
 	v, ok = val.(T)
 	if !ok {
+		// A whole number written as a float, e.g. 7.0, becomes an integer once
+		// the document is stored and read again between two migrations, so
+		// accept it as an integer in the first place.
+		const maxExactInt = 1 << 53
+		f, isFloat := val.(float64)
+		if isFloat && f == math.Trunc(f) && math.Abs(f) < maxExactInt {
+			if v, ok = any(int(f)).(T); ok {
+				return v, true, nil
+			}
+		}
+
 		return v, false, fmt.Errorf("unexpected type of %q: %T", key, val)
 	}
 
